@@ -191,7 +191,8 @@ class LFUCache(Cache[_KT, _VT]):
         Iterates over keys of the cache. From the least frequently used to the most frequently used.
 
         """
-        return (d.key for d in self.list)
+        # snapshot: lookups done while iterating (values(), items(), ==) move nodes in the list
+        return iter([d.key for d in self.list])
 
     def __setitem__(self, k: _KT, v: _VT):
         """
@@ -205,6 +206,7 @@ class LFUCache(Cache[_KT, _VT]):
 
         if k in self.cache:
             node = self.cache[k]
+            node.data.value = v
             self._inc_freq(node)
         else:
             if len(self.cache) >= self.max_size:
